@@ -74,24 +74,25 @@ CHECKS = {
 NA = {}
 # clauses added when seeded changes showed a gap (appended to the level text)
 EXTRA = {
- "C07": " Calendar sweep: every calendar day the timestamp width reaches from each epoch (first millisecond, the millisecond before, a day-dependent time of day) x 2 (node,step) corners through the same round trips.",
- "C08": " Iterator counts at the ends of the int range (MaxInt32, MaxInt-3..MaxInt, MinInt, MinInt+1, -2) at pos 0 and 3.",
- "C11": " A second alphabet of 24 calls whose sizes straddle the growth machinery (1..1010-byte writes, Next 1..1000, ReadFrom with chunkings around MinRead=512, Grow 1/512/600) from zero and 600/1024/1028-byte sized buffers, depth 4 quick / 5 thorough.",
- "C17": " Constructor parameters: the four sharded LRU constructors x 1..211 shards x capacity 1,2,shards-1..shards+1,2*shards+1: every key of a family reaches an existing shard, is readable right after Set and gone after Delete; the shard-count option does not leak between ReMap instances (all ordered triples of default/2/3/211).",
- "C20": " Base64Bytes.Scan of every text up to length 5 quick / 6 thorough over payload / padding / url-alphabet / blank / CR / LF characters and of line-wrapped encodings of 0..130 bytes, as string and as []byte, against a bitwise reference decoder.",
  "C01": " Fine-mode variants (schedule points at every statement boundary of the semaphore code). Constructor family: all ordered pairs of the three constructors x ratio default/1/2/12, each container's observed reader bound checked after the other was built (options must not leak between containers).",
  "C02": " Many-holder programs (counter width), 13- and 21-key multi-key lists with several keys per shard against short lists on the same shards, fine-mode variants.",
  "C04": " Removed/evicted results held by the caller stay part of the state key; Keys/Items results are re-read after later calls (aliasing); an object handed back by the cache is resized and set again.",
- "C05": " Sets from one caller-owned slice that is reused and read back after every step (aliasing); specs run one per worker process, depth 6 quick / 8 thorough (redis facade 7/9).",
- "C06": " Start timestamps near the top of the timestamp width.",
+ "C05": " Sets from one caller-owned slice that is reused and read back after every step (aliasing); specs run one per worker process, depth 6 quick / 8 thorough (redis facade 7/9). The fake redis follows the documented SCAN contract (paged, possibly empty pages, stable cursor); a second agreement spec shares the database with 52 keys of other prefixes, which must stay untouched.",
+ "C06": " Start timestamps near the top of the timestamp width. Five more epochs (before 1970 with and without a millisecond fraction, 1970, a fraction after 1970).",
+ "C07": " Calendar sweep: every calendar day the timestamp width reaches from each epoch (first millisecond, the millisecond before, a day-dependent time of day) x 2 (node,step) corners through the same round trips. Range functions on the same instants presented in 11 Locations (odd fixed offsets, daylight-saving zones around every transition of 2022-2024) must agree.",
+ "C08": " Iterator counts at the ends of the int range (MaxInt32, MaxInt-3..MaxInt, MinInt, MinInt+1, -2) at pos 0 and 3. GetN calls are guarded: a panic inside the library is a reported violation, not a harness crash.",
  "C09": " Alias probes (decoded sets must not share memory with the input), all 3-byte strings; round trip of every run of 1..65 consecutive indices at every start and of stride-2/3 combs.",
+ "C10": " Reset-and-reuse family: every constructor x message sizes around every allocation threshold up to 1 MiB x three ways of filling x consumed 0/1/all; empty after Reset; the next message round-trips; two cycles.",
+ "C11": " A second alphabet of 24 calls whose sizes straddle the growth machinery (1..1010-byte writes, Next 1..1000, ReadFrom with chunkings around MinRead=512, Grow 1/512/600) from zero and 600/1024/1028-byte sized buffers, depth 4 quick / 5 thorough.",
  "C12": " Extreme priorities (min/max int) in the priority queue.",
- "C13": " Fine-mode variants (schedule points at every statement boundary of the queue code).",
+ "C13": " Fine-mode variants (schedule points at every statement boundary of the queue code). Producer programs mixing the ordinary and the prior add; programs mixing blocking Pop with TryPop (sync queue).",
  "C14": " Stop before Run; one CallCtx object reused on a 2-lane and a 3-lane MultiLine (lane = IndexOf(hash) of the executor it was given to); executor options do not leak (all ordered triples of option sets through pipe.GetOption, a default MultiLine after a configured one).",
  "C15": " An LRU configuration in which every second value (cache.Value, Size 3) is bigger than the whole LRU; a configuration in which every second value written is the untyped nil; worker-count options do not leak between groups (all ordered pairs of default/2/3 workers).",
- "C16": " Injected Close / SetReadDeadline / SetWriteDeadline errors; Send and Close issued before Start; timed scenarios: a connection that honours read/write deadlines on a virtual discrete-event clock (silent peer, peer that does not read, heartbeats while a write is pending): a pending read/write expires at the deadline its own loop armed; manager timeouts do not leak between managers (all ordered pairs of three configurations, read off the armed deadlines).",
- "C18": " Special error values (gorm.ErrInvalidTransaction, sql.ErrTxDone, driver.ErrBadConn, context errors) as step results; nested Transact on the step's own handle (result ignored / returned) and Transact on a handle the caller already began a transaction on: no step, an error, no driver event, the caller's transaction still finishable.",
- "C19": " Long single-pair attempt histories up to the attempt/send limits + 2.",
+ "C16": " Injected Close / SetReadDeadline / SetWriteDeadline errors; Send and Close issued before Start; timed scenarios: a connection that honours read/write deadlines on a virtual discrete-event clock (silent peer, peer that does not read, heartbeats while a write is pending): a pending read/write expires at the deadline its own loop armed; manager timeouts do not leak between managers (all ordered pairs of three configurations, read off the armed deadlines). The echo manager (stcp/echo.go) behind the same accept loop: count never above the maximum, surplus connections closed.",
+ "C17": " Constructor parameters: the four sharded LRU constructors x 1..211 shards x capacity 1,2,shards-1..shards+1,2*shards+1: every key of a family reaches an existing shard, is readable right after Set and gone after Delete; the shard-count option does not leak between ReMap instances (all ordered triples of default/2/3/211). Binding capacity: sharded LRUs (1-2 shards, capacity 1/3, both variants and routings) against per-shard unsharded LRUs routed by the public index - every answer and eviction, all sequences to depth 4/5, no state merging.",
+ "C18": " Special error values (gorm.ErrInvalidTransaction, sql.ErrTxDone, driver.ErrBadConn, context errors) as step results; nested Transact on the step's own handle (result ignored / returned) and Transact on a handle the caller already began a transaction on: no step, an error, no driver event, the caller's transaction still finishable. Lists of length <= 2 also under the global log levels info/error/dpanic/fatal.",
+ "C19": " Long single-pair attempt histories up to the attempt/send limits + 2. Small-cache family: record cache of 1-3 entries and one destination more, all sequences (depth 6/7) of sends and right/wrong verifies - a sent code stays verifiable until CacheSize other destinations were used.",
+ "C20": " Base64Bytes.Scan of every text up to length 5 quick / 6 thorough over payload / padding / url-alphabet / blank / CR / LF characters and of line-wrapped encodings of 0..130 bytes, as string and as []byte, against a bitwise reference decoder. Round-trip value set extended by every decimal and binary magnitude (10^k, 10^k+-1, 1.5x10^k, 9.9x10^k, 2^k+-1, duration unit boundaries), both signs.",
 }
 
 def main():
